@@ -7,6 +7,7 @@ import A2lVerif.Driver.Lex
 import A2lVerif.Driver.Graph
 import A2lVerif.Driver.Cleanup
 import A2lVerif.Driver.Include
+import A2lVerif.Driver.Merge
 /-! `a2lmodel`: one request per line on stdin, one canonical answer per line on stdout. -/
 open A2l
 
@@ -15,6 +16,8 @@ def dispatch (line : String) : String :=
   | "il" :: args => IL.handle args
   | "cln" :: args => Cl.handle args
   | "inc" :: args => Inc.handle args
+  | "mrg" :: args => Mg.handle args
+  | "mrgraw" :: args => Mg.handleRaw args
   | "lim" :: args => Lim.handle args
   | "a2l" :: args => Tree.handle args
   | "lex" :: args => Lex.handle args
